@@ -29,6 +29,12 @@ impl C08 {
 }
 
 impl Monitor for C08 {
+    fn on_teleport(&mut self, _w: &World, _st: &mut Stats) -> Check {
+        // the original lineage was re-based at another height; the shadow lineage would have to be re-based the same
+        // way to stay comparable - the comparison resumes at the next restart point instead
+        self.shadow = None;
+        Ok(())
+    }
     fn on_restart(&mut self, w: &World, before: &Sealed, after: &Sealed, st: &mut Stats) -> Check {
         if before.header() != after.header() {
             viol!("rebuilt-header-differs", "the state rebuilt from its block has another header (height {})", before.header().height);
@@ -214,7 +220,8 @@ pub fn run(ctx: &Ctx) -> (Outcome, String, Option<bool>) {
         },
     );
     out.absorb(o);
-    let rule = "Generated histories with a stop/restart inserted after a sealed block at a generated position (with or without proposer action at the restart point, with or without tips left uncollected), plus further random restarts; after the restart the original lineage S and the rebuilt lineage from_block(S.to_block(), S.raw_stakes(), store) are driven in lock-step with the same transactions, batches and proposer actions. Oracle: the rebuilt state has the same header; every later batch gets the same accept/reject from both; every later sealed block has the same header from both (the differing fields are reported). Non-trivial = a restart followed by >=1 block with a proposer action or a spend of a coin that existed before the restart; distinct by (restart header, continuation transaction hashes). A second phase restarts right after a block in which a genuine TIP-910 mint (difficulty 14) raised the DOSC speed, and compares headers for further blocks.".to_string();
+    out.absorb(super::hist::run_sampled_heights(ctx, &profile(), ctx.scale(250, 2500), C08::default));
+    let rule = "Also: the first phase's kind of histories on mainnet/testnet (85%) started at a height sampled anywhere below 2 000 000 (TIP-906 barrier crossed honestly first). Generated histories with a stop/restart inserted after a sealed block at a generated position (with or without proposer action at the restart point, with or without tips left uncollected), plus further random restarts; after the restart the original lineage S and the rebuilt lineage from_block(S.to_block(), S.raw_stakes(), store) are driven in lock-step with the same transactions, batches and proposer actions. Oracle: the rebuilt state has the same header; every later batch gets the same accept/reject from both; every later sealed block has the same header from both (the differing fields are reported). Non-trivial = a restart followed by >=1 block with a proposer action or a spend of a coin that existed before the restart; distinct by (restart header, continuation transaction hashes). A second phase restarts right after a block in which a genuine TIP-910 mint (difficulty 14) raised the DOSC speed, and compares headers for further blocks.".to_string();
     (out, rule, None)
 }
 
@@ -223,7 +230,7 @@ pub fn replay(case: &serde_json::Value) -> Check {
         let mut st = Stats::default();
         return restart_after_mint(extra, with_action, &mut st, 200);
     }
-    super::hist::replay_history(case, &profile(), C08::default())
+    super::hist::replay_any(case, &profile(), &profile(), C08::default())
 }
 
 fn restart_after_mint(extra: u8, with_action: bool, st: &mut Stats, shard: usize) -> Check {
